@@ -1229,21 +1229,21 @@ fn all_cases(ctx: &Ctx) -> Vec<Case> {
     let mut rng0 = Rng::new(ctx.seed ^ 0xC12F5);
     let mut v = Vec::new();
     let mut g = rng0.fork(1);
-    v.extend(pascal_cases(&mut g, ctx.n(500, 6000), ctx.n(300, 6000)));
+    v.extend(pascal_cases(&mut g, ctx.n(300, 6000), ctx.n(200, 6000)));
     let mut g = rng0.fork(2);
-    v.extend(dos_cases(16, &mut g, ctx.n(500, 8000), ctx.n(400, 8000)));
+    v.extend(dos_cases(16, &mut g, ctx.n(350, 8000), ctx.n(250, 8000)));
     let mut g = rng0.fork(3);
-    v.extend(dos_cases(13, &mut g, ctx.n(150, 4000), ctx.n(150, 4000)));
+    v.extend(dos_cases(13, &mut g, ctx.n(100, 4000), ctx.n(100, 4000)));
     let mut g = rng0.fork(4);
-    v.extend(prodos_cases(&mut g, ctx.n(600, 8000), ctx.n(500, 8000)));
+    v.extend(prodos_cases(&mut g, ctx.n(400, 8000), ctx.n(300, 8000)));
     let mut g = rng0.fork(5);
     v.extend(imd_cases(&mut g, ctx.tier_thorough));
     let mut g = rng0.fork(6);
-    v.extend(fat_cases(&mut g, ctx.n(500, 8000), ctx.n(400, 8000)));
+    v.extend(fat_cases(&mut g, ctx.n(300, 8000), ctx.n(250, 8000)));
     let mut g = rng0.fork(7);
-    v.extend(cpm_cases(&mut g, ctx.n(400, 6000), ctx.n(300, 6000)));
+    v.extend(cpm_cases(&mut g, ctx.n(250, 6000), ctx.n(200, 6000)));
     let mut g = rng0.fork(8);
-    v.extend(cpk_cases(&mut g, ctx.n(150, 3000), ctx.n(150, 3000)));
+    v.extend(cpk_cases(&mut g, ctx.n(120, 3000), ctx.n(100, 3000)));
     v
 }
 
